@@ -1,11 +1,15 @@
 (* C13 — Routines survive QREF export and import.
    Deciding method: every exported document is re-imported (and re-compiled) by the real code and the two sides
    are compared inside Coq for equal structure and mathematically equal expressions (stream hier-qref) -- a
-   round-trip validation per document, not a proof about all documents.  What is proved: the naming scheme on
-   which multi-level link targets and endpoints rest survives joining with "." and splitting again, and the
-   preprocessing stage that peels deep links uses exactly that split. *)
+   round-trip validation per document, not a proof about all documents.  What is proved: for the NAMING LAYER of
+   the format (endpoints `child.port`, link targets `path.to.child.param`, children, every other field carried
+   as it is) the model of the import applied to the model of the export gives the routine back, for every
+   hierarchy (C13_import_of_export); names that are not of the expected form are refused, not misread; the
+   preprocessing stage that peels deep links uses exactly the first-dot split.  The model's export is tied to the
+   real exporter on every case of the stream: the connection and link strings of the real exported document must
+   be exactly the model's, and the model's import must read each of them.  Expression text is C12's subject. *)
 From Coq Require Import List String.
-From Bq Require Import Expr Routine Preprocess QrefFacts.
+From Bq Require Import Expr StdSem RepModel Routine Preprocess QrefFacts QrefModel QrefModelFacts.
 Import ListNotations.
 Open Scope string_scope.
 
@@ -16,6 +20,35 @@ Print Assumptions C13_path_split.
 Theorem C13_plain_name_not_split : forall s, no_dot s = true -> split_first_dot s = None.
 Proof. exact split_first_dot_none. Qed.
 Print Assumptions C13_plain_name_not_split.
+
+(* the naming layer, whole hierarchies: import (export r) = r *)
+Theorem C13_import_of_export : forall r, names_ok r = true -> of_q (to_q r) = Some r.
+Proof. exact of_q_to_q. Qed.
+Print Assumptions C13_import_of_export.
+
+Theorem C13_endpoint_round_trip : forall e, endpoint_ok e = true -> dec_endpoint (enc_endpoint e) = Some e.
+Proof. exact dec_enc_endpoint. Qed.
+Print Assumptions C13_endpoint_round_trip.
+
+Theorem C13_link_target_round_trip : forall path param,
+  no_dot param = true -> dec_target (enc_target (path, param)) = Some (path, param).
+Proof. exact dec_enc_target. Qed.
+Print Assumptions C13_link_target_round_trip.
+
+(* three-part endpoints and undotted link targets are refused (the real code raises), never read as something else *)
+Theorem C13_malformed_endpoint_refused : forall a b c, no_dot a = true -> no_dot b = true -> no_dot c = true ->
+  dec_endpoint (a ++ "." ++ b ++ "." ++ c) = None.
+Proof. exact dec_endpoint_three. Qed.
+Print Assumptions C13_malformed_endpoint_refused.
+
+Example C13_round_trip_nonvacuous :
+  let b := Routine "b" None ["x"] [] [] [Build_port "in_0" DIn (ESym "#in_0")] [] [] None [] [] in
+  let a := Routine "a" None [] [] [] [Build_port "in_0" DIn (ESym "#in_0")] [] [((None, "in_0"), (Some "b", "in_0"))] None [] [b] in
+  let root := Routine "root" None ["N"] [] [("N", [("a.b", "x")])] [Build_port "in_0" DIn (ESym "N")] []
+                      [((None, "in_0"), (Some "a", "in_0"))] None [] [a] in
+  names_ok root = true /\ of_q (to_q root) = Some root /\
+  wiring_of (to_q root) = W "root" [("in_0", "a.in_0")] [("N", ["a.b.x"])] [W "a" [("in_0", "b.in_0")] [] [W "b" [] [] []]].
+Proof. repeat split; vm_compute; reflexivity. Qed.
 
 (* a two-level link N -> a.b.x becomes N -> a.(b.x) at the root and (b.x) -> b.x inside a *)
 Example C13_deep_link_peeled :
